@@ -17,6 +17,7 @@ CONSTANTS
   MaxLines = 3
   Comments <- C_t
   MaxComments = 2
+  PrintOpts <- O_all
   FaultKinds <- None
 INVARIANT TypeOK
 INVARIANT RepeatedSpeciesSummed
